@@ -264,48 +264,63 @@ theorem cropBox_model (inp : Input) (k : Nat) :
 
 /-! ## preparation of the images handed to `cross_support` -/
 
-/-- what each pinned preparation statement does, in the reading of `Model/Cbca.lean` (masked, NaN and `+inf` pixels are
-    `Val.nan`): `shift` is the index of the shifted right image (`0` for the left image) -/
-def applyPrep (H W : Nat) (hasMsk : Bool) (msk : Nat → Nat → Int) (valid : Int) (shift : Nat) :
+/-- what each preparation statement does, in the reading of `Model/Cbca.lean` (masked, NaN and `+inf` pixels are
+    `Val.nan`), with the MEANING THE TRANSLATOR READ from the statement: guard and test of the mask stores
+    (`leftMaskGuard/Test`, `rightMaskGuard/Test`, `shiftMaskGuard/Test` over the mask cell and the attributes
+    `valid_pixels` / `no_data_mask` of the image's own dataset), the cells of the `as_strided` window whose sum is added to the
+    shifted image (`shiftMaskOffsets`: a NaN in any of them makes the pixel NaN, zeros leave it), the size of the median
+    (`prefilterSize`; the model has the 3 × 3 filter only).  `shift` is the index of the shifted right image. -/
+def applyPrep (H W : Nat) (hasMsk : Bool) (msk : Nat → Nat → Int) (valid nodata : Int) (shift : Nat) :
     KernelsCbcaGlue.PrepOp → Img → Img
   | .copy, g => g
-  | .maskInvalid, g => fun y x => if hasMsk && msk y x != valid then .nan else g y x
-  | .maskInvalidPixel, g => if shift = 0 then (fun y x => if hasMsk && msk y x != valid then .nan else g y x) else g
-  | .maskInvalidShifted, g =>
-      if shift = 0 then g else (fun y x => if hasMsk && (msk y x != valid || msk y (x + 1) != valid) then .nan else g y x)
-  | .median3, g => median3 H W g
+  | .maskInvalid, g => fun y x =>
+      if KernelsCbcaGlue.leftMaskGuard hasMsk && KernelsCbcaGlue.leftMaskTest (msk y x) valid nodata then .nan else g y x
+  | .maskInvalidPixel, g => fun y x =>
+      if KernelsCbcaGlue.rightMaskGuard hasMsk shift && KernelsCbcaGlue.rightMaskTest (msk y x) valid nodata then .nan else g y x
+  | .maskInvalidShifted, g => fun y x =>
+      if KernelsCbcaGlue.shiftMaskGuard hasMsk shift &&
+          KernelsCbcaGlue.shiftMaskOffsets.any (fun o => KernelsCbcaGlue.shiftMaskTest (msk (y + o.1) (x + o.2)) valid nodata)
+      then .nan else g y x
+  | .median3, g => if KernelsCbcaGlue.prefilterSize = 3 then median3 H W g else fun _ _ => Val.nan
   | .nanToInf, g => g
 
-def runPrep (H W : Nat) (hasMsk : Bool) (msk : Nat → Nat → Int) (valid : Int) (shift : Nat)
+def runPrep (H W : Nat) (hasMsk : Bool) (msk : Nat → Nat → Int) (valid nodata : Int) (shift : Nat)
     (ops : List KernelsCbcaGlue.PrepOp) (g : Img) : Img :=
-  ops.foldl (fun g op => applyPrep H W hasMsk msk valid shift op g) g
+  ops.foldl (fun g op => applyPrep H W hasMsk msk valid nodata shift op g) g
 
 /-- the unmasked `k`-th shifted right image (`shift_right_img`: linear interpolation at `k / subpix`) -/
 def rawShift (inp : Input) (k : Nat) : Img := fun y x =>
   if k = 0 then .num (inp.imR y x)
   else .num ((1 - (k : ℚ) / inp.subpix) * inp.imR y x + (k : ℚ) / inp.subpix * inp.imR y (x + 1))
 
-theorem prepLeft_generated_eq (inp : Input) :
-    runPrep inp.H inp.W inp.hasMskL inp.mskL inp.validL 0 KernelsCbcaGlue.prepLeft (fun y x => .num (inp.imL y x))
+/-- `np.nan_to_num(…, copy=False, nan=np.inf)`: NaN becomes the `+inf` `cross_support` is proved with (`Fl.ofMasked`) -/
+theorem nanReplacement_generated_eq : KernelsCbcaGlue.nanReplacement = Fl.ofMasked Val.nan := rfl
+
+/-- the summed `as_strided` view has the width of the shifted images (`W - 1`) -/
+theorem shiftMask_generated_width (W : Nat) (hW : 1 ≤ W) :
+    (W : Int) + KernelsCbcaGlue.shiftMaskWidthDelta = ((W - 1 : Nat) : Int) := by
+  unfold KernelsCbcaGlue.shiftMaskWidthDelta; omega
+
+theorem prepLeft_generated_eq (inp : Input) (nodata : Int) :
+    runPrep inp.H inp.W inp.hasMskL inp.mskL inp.validL nodata 0 KernelsCbcaGlue.prepLeft (fun y x => .num (inp.imL y x))
       = inp.filteredL := by
   unfold KernelsCbcaGlue.prepLeft runPrep Input.filteredL
-  simp only [List.foldl, applyPrep]
-  rfl
+  simp only [List.foldl, applyPrep, KernelsCbcaGlue.prefilterSize, if_true]
+  congr 1 <;> (funext y x; simp [maskedImg, KernelsCbcaGlue.leftMaskGuard, KernelsCbcaGlue.leftMaskTest])
 
-theorem prepRight_generated_eq (inp : Input) (k : Nat) :
-    runPrep inp.H (if k = 0 then inp.W else inp.W - 1) inp.hasMskR inp.mskR inp.validR k KernelsCbcaGlue.prepRight (rawShift inp k)
-      = inp.filteredR k := by
+theorem prepRight_generated_eq (inp : Input) (k : Nat) (nodata : Int) :
+    runPrep inp.H (if k = 0 then inp.W else inp.W - 1) inp.hasMskR inp.mskR inp.validR nodata k KernelsCbcaGlue.prepRight
+      (rawShift inp k) = inp.filteredR k := by
   unfold KernelsCbcaGlue.prepRight runPrep Input.filteredR
-  simp only [List.foldl, applyPrep]
+  simp only [List.foldl, applyPrep, KernelsCbcaGlue.prefilterSize, if_true]
   by_cases hk : k = 0
   · simp only [hk, if_true]
-    congr 1
+    congr 1 <;> funext y x <;>
+      simp [maskedImg, rawShift, KernelsCbcaGlue.rightMaskGuard, KernelsCbcaGlue.rightMaskTest, KernelsCbcaGlue.shiftMaskGuard]
   · simp only [hk, if_false]
-    congr 1
-    funext y x
-    unfold shiftedImg rawShift
-    simp only [hk, if_false]
-
+    congr 1 <;> funext y x <;>
+      simp [shiftedImg, rawShift, hk, KernelsCbcaGlue.rightMaskGuard, KernelsCbcaGlue.shiftMaskGuard,
+        KernelsCbcaGlue.shiftMaskTest, KernelsCbcaGlue.shiftMaskOffsets]
 
 /-! ## the whole step on an `Input` -/
 
@@ -660,6 +675,16 @@ theorem costVolumeAggregation_generated_plane_independent (inp : Input) (cv' : N
   intro y x hy hx
   rw [hc y x k hy hx hk, hc' y x k hy hx hk]
   exact Pandora.C11.plane_independent inp cv' k h y x
+
+/-! ## `cmax` -/
+
+/-- the `cmax` attribute written by `cost_volume_aggregation` is the model's `cmaxAfter` (any `cmax`, any distance) -/
+theorem cmaxUpdate_generated_eq (cmax : ℚ) (dist : Nat) :
+    KernelsCbcaGlue.cmaxUpdate cmax (dist : Int) = cmaxAfter cmax dist := by
+  unfold KernelsCbcaGlue.cmaxUpdate cmaxAfter
+  simp only [ipow]
+  push_cast
+  ring
 
 /-! ## non-vacuity -/
 
